@@ -99,6 +99,7 @@ func (r *Report) finish(evidencePath string) int {
 	nviol := 0
 	var lines []string
 	replayDir := filepath.Join(root, "replays", r.Prop)
+	os.RemoveAll(replayDir)
 	// problems are undischarged obligations without a model
 	if len(r.problems) > 0 {
 		os.MkdirAll(replayDir, 0o755)
